@@ -454,6 +454,16 @@ def run_config(chk, cfg):
             check_receive(chk, cfg, m, fn)
         if rs == {"observer"}:
             check_observer(chk, cfg, m, fn)
+    # the API functions exist by name even when (in some build) their body no longer touches the queue: a release that
+    # releases nothing, a send that sets no flag
+    for api, role, what in (("messageq_release", "release", "returns no buffer to the pool (num_free is never incremented)"),
+                            ("messageq_send", "send", "sets no flag (the message is never seen by the receiver)"),
+                            ("messageq_claim", "claim", "reserves nothing")):
+        if not seen.get(role):
+            for m in mods:
+                if m.has_fn(api):
+                    chk.ob("R2.release" if role == "release" else "R5.send" if role == "send" else "R2.reservation", "%s[%s]" % (api, cfg), False,
+                           "%s does not access the queue's shared state in this build: it %s" % (api, what), m.fn(api).loc, api)
     for r in ("claim", "send", "receive", "release", "observer"):
         chk.expect("roles", "%s-role functions [%s]" % (r, cfg), len(seen.get(r, [])), 1)
     chk.expect("R4", "compare-exchange sites on paths [%s]" % cfg, n_cas, 2)
